@@ -40,6 +40,7 @@ func zzNewTransport(name string) *zzTransport {
 }
 
 func (t *zzTransport) Read(p []byte) (int, error) {
+	vJitter()
 	t.reads++
 	if t.eof {
 		return 0, io.EOF
